@@ -431,4 +431,88 @@ Proof.
   - rewrite (map_ford_erase (pts new1)), Hp1, Ho0, map_app. cbn [map firstn erase dump ford fst]. rewrite lastn_app2, Hg1. reflexivity.
 Qed.
 
+
+(* ------------------------------------------------------------------ validity of the new paths *)
+
+Lemma crossedb_false l r f : crossedb l r f = false <-> l <= ford f <= r.
+Proof.
+  unfold crossedb. destruct (Z.ltb_spec (ford f) l); destruct (Z.ltb_spec r (ford f)); cbn; split; intros; try lia; try discriminate; reflexivity.
+Qed.
+
+Lemma crossedb_true l r f : crossedb l r f = true <-> (ford f < l \/ r < ford f).
+Proof.
+  unfold crossedb. destruct (Z.ltb_spec (ford f) l); destruct (Z.ltb_spec r (ford f)); cbn; split; intros; try lia; try discriminate; reflexivity.
+Qed.
+
+Lemma zmin3 a b c : a <= b <= c -> zmin_list a [b; c] = a.
+Proof. intros. unfold zmin_list. cbn. lia. Qed.
+Lemma zmax3 a b c : a <= b <= c -> zmax_list a [b; c] = c.
+Proof. intros. unfold zmax_list. cbn. lia. Qed.
+
+(* the start letter check_interfaces computes for a non-empty path and an ordered triple *)
+Lemma has_L_start p e a rest :
+  e_i0 e <= e_i1 e <= e_i2 e -> orders p = a :: rest ->
+  has_L_start_end p e = false -> classify (e_i0 e) (e_i2 e) a <> SL.
+Proof.
+  intros Hord Ho. unfold has_L_start_end, check_interfaces, ordermin, ordermax, intf_of. rewrite Ho.
+  destruct (argmin_from a 0 1 rest) as [omin imin]. destruct (argmax_from a 0 1 rest) as [omax imax].
+  rewrite zmin3, zmax3 by exact Hord. cbn [ci_start ci_end].
+  unfold start_point. rewrite Ho. destruct (Z.ltb_spec (e_i2 e) (e_i0 e)); [lia|].
+  cbn [opt_is_L]. destruct (classify (e_i0 e) (e_i2 e) a); cbn; congruence.
+Qed.
+
+Theorem retis_swap_valid e0 e1 old0 old1 new0 new1 streams calls :
+  retis_acc_shape e0 e1 old0 old1 new0 new1 streams calls ->
+  (e_maxlen e0 <= e_maxlen e1)%nat ->
+  e_i0 e0 <= e_i1 e0 <= e_i2 e0 ->
+  (forall f10 f11 tl, pts old1 = f10 :: f11 :: tl -> e_i2 e0 <= ford f11) ->
+  (forall pre a b, pts old0 = pre ++ [a; b] -> ford a <= e_i0 e1) ->
+  (* the new [0-] path *)
+  (exists a mid b, orders new0 = a :: mid ++ [b] /\ mid <> [] /\ (3 <= plen new0 < e_maxlen e0)%nat /\
+     (a < e_i0 e0 \/ e_i2 e0 < a) /\ (e_scL e0 = false -> e_i2 e0 < a) /\
+     (forall o, In o mid -> e_i0 e0 <= o <= e_i2 e0) /\ e_i2 e0 <= b) /\
+  (* the new [0+] path *)
+  (exists a mid b, orders new1 = a :: mid ++ [b] /\ mid <> [] /\ (3 <= plen new1 < e_maxlen e1)%nat /\
+     a <= e_i0 e1 /\ (forall o, In o mid -> e_i0 e1 <= o <= e_i2 e1) /\
+     (b < e_i0 e1 \/ e_i2 e1 < b)).
+Proof.
+  intros (f10 & f11 & tl1 & pre0 & f0m2 & f0l & s0 & s1 & rest & k0 & k1 & Ho1 & Ho0 & Hs & Hp0 & Hm0 & _ & Hp1 & Hm1 & _ &
+          Hk0 & Hk0m & _ & _ & Hstop0 & Hk1 & Hk1m & Hstop1 & HL & _ & _ & _) Hml Hord H11 H0m2.
+  split.
+  - assert (Hst : stops_at (e_i0 e0) (e_i2 e0) s0 k0) by (apply Hstop0; lia).
+    pose proof Hst as (_ & Hpre & _).
+    destruct (stops_at_split _ _ _ _ Hst) as (lastf & _ & Hc & Hf & Hlen).
+    rewrite Hf, rev_app_distr in Hp0. cbn [rev app] in Hp0.
+    set (mid := rev (firstn (k0 - 1) s0)) in *.
+    assert (Hmidlen : length mid = (k0 - 1)%nat) by (unfold mid; rewrite rev_length; exact Hlen).
+    assert (Hor : orders new0 = ford lastf :: map ford mid ++ [ford f11]).
+    { unfold orders. rewrite Hp0. cbn [map]. rewrite map_app. reflexivity. }
+    exists (ford lastf), (map ford mid), (ford f11).
+    split; [exact Hor|].
+    split; [intros E; apply (f_equal (@length Z)) in E; rewrite map_length, Hmidlen in E; cbn in E; lia|].
+    split; [unfold plen; rewrite Hp0; cbn [length]; rewrite app_length, Hmidlen; cbn [length]; lia|].
+    apply crossedb_true in Hc.
+    split; [exact Hc|].
+    split.
+    + intros HscL. specialize (HL HscL). apply (has_L_start _ _ _ _ Hord Hor) in HL.
+      destruct Hc as [Hc|Hc]; [|exact Hc]. exfalso. apply HL. unfold classify.
+      destruct (Z.leb_spec (ford lastf) (e_i0 e0)); [reflexivity|lia].
+    + split; [|exact (H11 _ _ _ Ho1)].
+      intros o Ho. apply in_map_iff in Ho. destruct Ho as (f & <- & Hf'). apply crossedb_false, Hpre.
+      unfold mid in Hf'. apply in_rev in Hf'. exact Hf'.
+  - pose proof Hstop1 as (_ & Hpre & _).
+    destruct (stops_at_split _ _ _ _ Hstop1) as (lastf & _ & Hc & Hf & Hlen).
+    rewrite Hf, map_app in Hp1. cbn [map] in Hp1.
+    assert (Hor : orders new1 = ford f0m2 :: map ford (firstn (k1 - 1) s1) ++ [ford lastf]).
+    { unfold orders. rewrite map_ford_erase, Hp1. cbn [map erase dump ford fst]. rewrite map_app. cbn [map fst].
+      rewrite <- map_ford_erase. reflexivity. }
+    exists (ford f0m2), (map ford (firstn (k1 - 1) s1)), (ford lastf).
+    split; [exact Hor|].
+    split; [intros E; apply (f_equal (@length Z)) in E; rewrite map_length, Hlen in E; cbn in E; lia|].
+    split; [rewrite plen_map_erase, Hp1; cbn [length]; rewrite app_length, map_length, Hlen; cbn [length]; lia|].
+    split; [exact (H0m2 _ _ _ Ho0)|].
+    split; [|apply crossedb_true; exact Hc].
+    intros o Ho. apply in_map_iff in Ho. destruct Ho as (f & <- & Hf'). apply crossedb_false, Hpre. exact Hf'.
+Qed.
+
 End WithDump.
